@@ -134,7 +134,8 @@ class HTTPRequestParser:
                 # https://tools.ietf.org/html/rfc7230#section-3.5 to support
                 # clients sending an extra CR LF after another request when
                 # using HTTP pipelining
-                header_plus = header_plus.lstrip()
+                while header_plus.startswith(b"\r\n"):
+                    header_plus = header_plus[2:]
 
                 if not header_plus:
                     self.empty = True
@@ -209,7 +210,7 @@ class HTTPRequestParser:
         index = header_plus.find(b"\r\n")
 
         if index >= 0:
-            first_line = header_plus[:index].rstrip()
+            first_line = header_plus[:index]
             header = header_plus[index + 2 :]
         else:
             raise ParsingError("HTTP message header invalid")
@@ -447,7 +448,7 @@ def get_header_lines(header):
 
 first_line_re = re.compile(
     rb"(?P<method>[!#$%&'*+\-.^_`|~0-9A-Za-z]+) "
-    rb"(?P<uri>(?:[^ :?#]+://[^ ?#/]*(?:[0-9]{1,5})?)?[^ ]+)"
+    rb"(?P<uri>(?:[^\x00-\x20\x7f:?#]+://[^\x00-\x20\x7f?#/]*(?:[0-9]{1,5})?)?[^\x00-\x20\x7f]+)"
     rb"(?: HTTP/(?P<version>[0-9]\.[0-9]))?"
 )
 
